@@ -195,6 +195,7 @@ def run(repo, tier):
             pa = LR.pass_analysis(facts, name, frozenset(inc))
             LR.check_conservation(rep, pa, 'R9.bytes', name in LR.LABEL_PASSES_EXPECTED)
             LR.check_order_only(rep, pa, 'R9.order')
+            LR.check_shared_buffers(rep, facts, pa, 'R9.own-payload')
             rep.count('pass analyses')
         final = steps[-1][3] if steps else set()
         rep.check(final == {'Blob'}, 'R9.class-flow', 'compress={}: only Blob items reach resolve_blobs'.format(compress),
